@@ -32,13 +32,15 @@ import MdkVerif.Model.Lru
    create_group_snapshot — use `peek` / `iter` only: they never change a recency order.)
   The OpenMLS tables and the snapshot map are `HashMap`s: unbounded, as in `Model/Store.lean`.
 
-  Two places where the code iterates a `HashMap` and the ORDER matters once a capacity is reached are
-  resolved by a choice argument `ch` of `step` (theorems quantify over every `ch`):
-    * `save_message` at `max_messages_per_group`: the victim is the `min_by_key(created_at)` of the
-      group's map — among several messages with the minimal second, whichever the map yields first;
-      `ch.head?` names the victim if it is one of them;
+  One place where the code iterates a `HashMap` and the ORDER matters once a capacity is reached is resolved by a
+  choice argument `ch` of `step` (theorems quantify over every `ch`):
     * `restore_group_scoped_snapshot`: `for (epoch, secret) in snapshot.group_exporter_secrets` puts
       the group's secrets back in map order; `ch` lists the epochs in the order used.
+  `save_message` at `max_messages_per_group` is deterministic since /repo 3a82aa4: the victim is the minimum of the
+  comparator chain re-extracted into `Generated.memCapVictimKeys` (0 = created_at, 1 = processed_at, 2 = id;
+  `Generated.memCapVictimIsMin`) — the last message of the default listing order.  (Before: `min_by_key(created_at)`
+  over the map, i.e. among equally old messages whichever the map yielded first, so the message the group's
+  last-message pointer designates could be the victim.)
   Everything else is deterministic.  `MemoryStorageSnapshot` (`create_snapshot` / `restore_snapshot`,
   inherent methods, not part of the storage traits, not called by mdk-core) is not modelled.
 -/
@@ -156,23 +158,27 @@ def saveSecret (s : MemStore) (gid epoch v : Nat) : Option MemStore :=
 
 /-! ## messages.rs -/
 
-def minCreated : List Msg → Option Nat
+/-- a field of the comparator chain: 0 = created_at, 1 = processed_at, otherwise the id -/
+def fieldOf (k : Nat) (m : Msg) : Nat := if k = 0 then m.created else if k = 1 then m.processed else m.id
+
+/-- `a.k₁.cmp(&b.k₁).then_with(|| a.k₂.cmp(&b.k₂))… == Less` -/
+def chainLt : List Nat → Msg → Msg → Bool
+  | [], _, _ => false
+  | k :: ks, a, b => decide (fieldOf k a < fieldOf k b) || (fieldOf k a == fieldOf k b && chainLt ks a b)
+
+/-- the order the eviction minimises (the chain as extracted; `max_by` flips it) -/
+def capLt (a b : Msg) : Bool :=
+  if Generated.memCapVictimIsMin then chainLt Generated.memCapVictimKeys a b else chainLt Generated.memCapVictimKeys b a
+
+/-- `min_by`: the least element (the first of several equally small ones) -/
+def argMin (lt : Msg → Msg → Bool) : List Msg → Option Msg
   | [] => none
-  | m :: t => match minCreated t with
-    | none => some m.created
-    | some c => some (if m.created < c then m.created else c)
+  | m :: t => match argMin lt t with
+    | none => some m
+    | some b => if lt b m then some b else some m
 
-/-- the messages `min_by_key(created_at)` can return -/
-def oldestIds (gm : List Msg) : List Nat :=
-  match minCreated gm with
-  | none => []
-  | some c => (gm.filter (·.created == c)).map (·.id)
-
-/-- the victim of the per-group cap: `pick` if it is one of the oldest, else the first of them -/
-def victim (gm : List Msg) (pick : Option Nat) : Option Nat :=
-  match pick with
-  | some p => if p ∈ oldestIds gm then some p else (oldestIds gm).head?
-  | none => (oldestIds gm).head?
+/-- the victim of the per-group cap -/
+def victim (gm : List Msg) : Option Nat := (argMin capLt gm).map (·.id)
 
 /-- does this `save_message` push a message out of its group's map? -/
 def capHit (s : MemStore) (m : Msg) : Bool :=
@@ -180,15 +186,15 @@ def capHit (s : MemStore) (m : Msg) : Bool :=
     decide ((groupMsgs s.u m.gid).length ≥ s.msgCap)
 
 /-- `save_message`.  Group check (`peek`), then `messages_by_group_cache.get_mut(group)`:
-    held → promoted; a NEW id at `max_messages_per_group` first removes the oldest message from the map and `pop`s
-    it from `messages_cache`; then insert/replace in the map.  Not held → `put` of a fresh one-message map.
+    held → promoted; a NEW id at `max_messages_per_group` first removes the victim (`victim`: the last message of the
+    default listing order) from the map and `pop`s it from `messages_cache`; then insert/replace in the map.  Not held → `put` of a fresh one-message map.
     Finally `messages_cache.put(id)`. -/
-def saveMessage (s : MemStore) (m : Msg) (pick : Option Nat) : Option MemStore :=
+def saveMessage (s : MemStore) (m : Msg) : Option MemStore :=
   if (findGroup s.u m.gid).isNone then none
   else if m.gid ∈ s.qMsgGroups then
     let s1 : MemStore :=
       if capHit s m then
-        match victim (groupMsgs s.u m.gid) pick with
+        match victim (groupMsgs s.u m.gid) with
         | some v => { s with u := { s.u with msgs := s.u.msgs.filter (fun x => !(x.gid == m.gid && x.id == v)) },
                              byId := aerase v s.byId, qById := qRemove v s.qById, evlog := (9, v) :: s.evlog }
         | none => s
@@ -287,12 +293,12 @@ def okErr (o : Option MemStore) (s : MemStore) : MemStore × String :=
   | some s' => (s', "ok")
   | none => (s, "err")
 
-/-- one operation; `ch` resolves the two map-order choices (ignored by every other operation).
+/-- one operation; `ch` resolves the map-order choice of the restore (ignored by every other operation).
     Reads answer from the content (`peek` / `iter`): the text `Store.step` renders for the `.mem` flavour. -/
 def step (s : MemStore) (op : Op) (ch : List Nat) : MemStore × String :=
   match op with
   | .saveGroup g => okErr (saveGroup s g) s
-  | .saveMessage m => okErr (saveMessage s m ch.head?) s
+  | .saveMessage m => okErr (saveMessage s m) s
   | .savePm p => (savePm s p, "ok")
   | .invalMsgs gid e => let r := invalMsgs s gid e; (r.1, natList (sortBy natLt r.2))
   | .invalPms gid e => let r := invalPms s gid e; (r.1, natList (sortBy natLt r.2))
@@ -330,12 +336,6 @@ def perms : List Nat → List (List Nat)
   | x :: xs => (perms xs).flatMap (insertAll x)
 
 def choices (s : MemStore) : Op → List (List Nat)
-  | .saveMessage m =>
-    if capHit s m then
-      match oldestIds (groupMsgs s.u m.gid) with
-      | [] => [[]]
-      | l => l.eraseDups.map (fun i => [i])
-    else [[]]
   | .snapRollback gid name =>
     match findSnap s.u gid name with
     | none => [[]]
